@@ -83,7 +83,7 @@ func run(r *evid.Run) {
 	}
 	r.Rule(fmt.Sprintf("documents: for each file type and each frame (version x layout) every feature vector with at most %d non-zero dimensions, every non-zero dimension at every value (%d-way exhaustive, not the full product); "+
 		"a document is a distinct non-trivial case iff its text is new, the reader accepts it and its accessor dump differs from the dump of the frame's empty document (the features had an effect). "+
-		"migration: every workspace of the workspace grammar; distinct iff the layout+config key is new and the migrator accepted it.", t, t))
+		"migration: workspaces of the workspace grammar (layout x module kinds x roots x excludes x names x lint/breaking sections x deps): every single dimension at every value, all pairs of interacting dimensions (thorough: all pairs and all interacting triples); a workspace is distinct iff its feature key is new, it builds/lints/breaking-checks before migration and the migrator accepted it.", t, t))
 	r.Set("t_way", t)
 	r.Assume("the dimension grammar is t-way exhaustive (t=2 quick, t=3 thorough), not the full product of all features")
 	r.Assume("'the same configuration' is judged on the public accessors of the parsed objects (deep accessor dump); for v2 buf.yaml the TopLevelLintConfig/TopLevelBreakingConfig accessors are informational because hoisting identical per-module sections is the writer's documented freedom; the per-module effective configs are compared strictly")
